@@ -114,7 +114,13 @@ func (e *escaper) escape(c context, n parse.Node) context {
 	case *parse.WithNode:
 		return e.escapeBranch(c, &n.BranchNode, "with")
 	}
-	panic("escaping " + n.String() + " is unimplemented")
+	// Node kinds this package does not know how to escape ({{break}} and {{continue}}
+	// with newer versions of text/template/parse) must not panic: report them like
+	// any other template that cannot be escaped.
+	return context{
+		state: stateError,
+		err:   errorf(ErrEscapeAction, n, 0, "escaping %s is unimplemented", n),
+	}
 }
 
 // escapeAction escapes an action template node.
